@@ -1082,9 +1082,9 @@ func H_C08_late() {
 	vfAssert(err == nil && len(r) == rd, "C08.read-len")
 	w.b[0].read += rd
 	dataOff := vfOffsetIn(r, w.mem) // -1: the message came through the socket (shared memory exhausted)
-	w.send(1, true, 3)  // the other stream: its polling event is on the wire
-	w.send(0, true, 25) // more than shared memory offers: socket fallback, behind it on the wire
-	w.closeEnd(0, true) // the close travels through the queue
+	w.send(1, true, 3)              // the other stream: its polling event is on the wire
+	w.send(0, true, 25)             // more than shared memory offers: socket fallback, behind it on the wire
+	w.closeEnd(0, true)             // the close travels through the queue
 	if vfShape("order", 0, 1) == 0 {
 		w.deliverAB()
 	} else {
